@@ -31,7 +31,9 @@ CHECKS = {
              "All six thresholds are one symbolic parameter; streams are arbitrary.",
         note="Trusted: pickle.loads is the stock unpickler (uninterpreted UNPICKLE); Pickled.load/dumps contracts are verified under C06; "
              "precondition pickle.loads is the stock function (under the ML environment it is the allowlist unpickler, C07); exceptions from "
-             "resource exhaustion are not modelled.",
+             "resource exhaustion are not modelled. Bounded companions (never counted as proved): replay/load_diff.py (inputs x three stream "
+             "kinds incl. one that changes after the first pass x six thresholds x three arming ways, audit events and a sink) and "
+             "replay/hook_diff.py for the arming clause.",
         ref="§C02"),
     "C12": dict(
         text="Proof: run_hook / always_check_safety / activate_safe_ml_environment / remove_hook / FicklingContextManager.__init__, __enter__, "
@@ -39,7 +41,9 @@ CHECKS = {
              "exact frames; lifecycle lemmas L1-L3 are lemma programs executed symbolically over those contracts only (api_ops abstracts any "
              "operation sequence by the union of the verified frames), so they hold for histories of any length and nesting depth.",
         note="Trusted: import-time facts of fickling.hook are read from the live import; reading of 'protection in force' and of "
-             "'enter context' as construct+enter is stated in DESIGN C12; what the dispatched loaders do is C02/C07.",
+             "'enter context' as construct+enter is stated in DESIGN C12; what the dispatched loaders do is C02/C07. Names re-bound through "
+             "`global` are module fields (frame-checked). Bounded companion replay/hook_diff.py: every operation sequence up to length 4 and "
+             "3000 random ones up to length 9 against the statement's state machine, with flagged / plain / addition probes.",
         ref="§C12"),
     "C09": dict(
         text="Proof: every opcode class's run (61 classes; the StackSliceOpcode wrapper and the wrapped runs separately, modularly) is verified "
@@ -78,9 +82,13 @@ CHECKS = {
              "only the two caches, objects it allocated, node-owned lists and line numbers — never the opcode list, the opcode objects or "
              "anything an earlier answer came from — so each query is a function of the opcode sequence whatever was asked before; "
              "(b) types — at every AST construction, fields consumers iterate hold lists/tuples (not one-shot iterators or bare nodes) and "
-             "ast.Constant holds a Python constant; (c) no id()/hash() reaches an output and the one iteration over a set only keys a dict.",
+             "ast.Constant holds a Python constant; (c) no id()/hash() reaches an output and the one iteration over a set only keys a dict; "
+             "(d) no state outlives a query: every `global` re-binding, mutation of a module / class level object and memoising decorator in "
+             "fickle / analysis / tracing is an obligation (import-time registration sites are named), and the registered analyses and the "
+             "default Analyzer hold no per-query fields.",
         note="The cross-process clause is argued from (a)-(c), observed only by the bounded companion replay/determinism_diff.py (two processes, "
-             "different PYTHONHASHSEED); Interpreter.unused_assignments is under a trusted contract; FROZENSET is a recorded known finding.",
+             "different PYTHONHASHSEED, programs asked in the opposite order); Interpreter.unused_assignments is under a trusted contract "
+             "(body pinned in trusted_bodies.json); FROZENSET is a recorded known finding.",
         ref="§C13"),
     "C19": dict(
         text="Proof: each of the nine analyses is symbolically executed under the precondition 'the pickle decompiled (its AST is built and "
@@ -122,7 +130,8 @@ CHECKS = {
              "clause 'own primitive effects ∪ callees' clauses' is recomputed from the working tree with closed-world call resolution, and every "
              "primitive effect site is an obligation: its row must be one the statement allows (read/seek of the given stream, stdout/stderr, "
              "the caller's / command-line paths, stdlib_list's package data). No import, attribute resolution, call, exec/compile, unpickling, "
-             "spawn, connection or computed-path open is reachable, on any path, for any input. No SMT is involved (obligations are syntactic).",
+             "spawn, connection, computed-path open or codec lookup under a computed name is reachable, on any path, for any input. No SMT is "
+             "involved (obligations are syntactic).",
         note="Trusted: effect rows of externals; closed-world method resolution (over-approximate); import-time code and C extensions are outside. "
              "Unclassifiable sites (computed callee, external without a row) are weak obligations: violation only if replay/inert_diff.py (audit hook, "
              "sentinel globals, 9 entry points, ~760 inputs; bounded) shows the effect, else undecided (exit 2).",
@@ -168,7 +177,9 @@ CHECKS = {
              "the state it needs; check_safety and AnalysisResults.severity (maximum) give the verdict floor as a lemma program.",
         note="Layer A (every import / call the VM would perform is anchored in the module) is C03; the glue is trusted: ast.NodeVisitor collects "
              "every node, ast.unparse of a call starts with the callee name, str.rsplit/count enumerate dotted prefixes. The composition over "
-             "opcode choice / memo / disposal / framing is the bounded companion replay/floor_diff.py (11.5k programs). One defect repaired.",
+             "opcode choice / memo / disposal / framing is the bounded companion replay/floor_diff.py (19.8k programs incl. Python 2 module names "
+             "at protocol 0 and 4). 'Standard library' is defined (IS_STD: stdlib_list on the name as written, or a builtin module) and "
+             "is_std_module is verified against it. One defect repaired, one known finding (commands -> subprocess under fix_imports).",
         ref="§C04"),
     "C18": dict(
         text="Proof over the real cli.main (argparse modelled from the add_argument calls of the working tree; every path of the function): "
